@@ -1974,7 +1974,18 @@ class unyt_array(np.ndarray):
                             "cannot be multiplied, divided, subtracted or "
                             "added with data that has different units."
                         )
-                    inp1 = np.asarray(inp1, dtype=new_dtype) * conv
+                    if (
+                        unit_operator is _preserve_units
+                        and u0.dimensions is temperature
+                        and u0.base_offset == 0.0
+                        and u1.base_offset != 0.0
+                    ):
+                        # the result is labelled with u1 (see _preserve_units):
+                        # bring the temperature difference to u1's scale
+                        # instead of bringing u1's readings to the scale of u0
+                        inp0 = np.asarray(inp0, dtype=new_dtype) / conv
+                    else:
+                        inp1 = np.asarray(inp1, dtype=new_dtype) * conv
             # get the unit of the result
             mul, unit = unit_operator(u0, u1)
             # actually evaluate the ufunc
